@@ -75,7 +75,11 @@ def run(ctx) -> list[Inst]:
                                   msg='expression argument is neither a projection nor the variable table',
                                   file=rel, line=n.lineno, props=PROPS))
     if nrec < 5:
-        raise AnalysisError(f'{EVAL}: only {nrec} recursive calls found (evaluator restructured?)')
+        # the evaluator no longer calls itself by name in a form this rule follows (a bound partial, a dispatch
+        # table, an explicit stack): structural descent is not decided
+        insts.append(Inst(RULE, EVAL, '(1) recursive calls descend structurally', 'unproven',
+                          msg=f'only {nrec} recursive calls by name found: evaluator restructured', file=rel,
+                          line=f.node.lineno, props=PROPS))
     # ---------------------------------------------------------------- (2) worklists
     for g in [f] + [x for x in prog.all_funcs() if x.module is f.module and x.cls is None and x is not f]:
         for n in own_nodes(g.node):
